@@ -835,6 +835,20 @@ def generate(rng, max_ops=12):
             ret = rng.choice(["fn1", "fnlist"])
             prog.append(["class", cn, ret, g.body(sc, 1, ret)])
             classes.append((cn, ret))
+    # a module-level variable of function type that closures re-point (modify) and call
+    holders = []
+    if factories and rng.chance(1, 2):
+        fn1_factories = [f for f, r in factories if r == "fn1"]
+        if fn1_factories:
+            fac = rng.choice(fn1_factories)
+            cur, setn, usen = g.name("cur"), g.name("setcur"), g.name("usecur")
+            prog.append(["decl", cur, "int", ["call", fac, [["i", rng.range(0, 9)]]]])
+            prog.append(["def", setn, [["d", "int"]], "int", [["mod", cur, ["call", fac, [["v", "d"]]]], ["ret", ["v", "d"]]]])
+            prog.append(["def", usen, [["d", "int"]], "int", [["ret", ["call", cur, [["v", "d"]]]]]])
+            top.own[cur] = "fn1"
+            top.own[setn] = "fn1"
+            top.own[usen] = "fn1"
+            holders.append((cur, setn, usen))
     # history
     nops = rng.range(4, max_ops)
     hist = []
@@ -845,6 +859,8 @@ def generate(rng, max_ops=12):
         lists = g.of_type(top, "fnlist")
         ints = g.of_type(top, "int")
         choices = [("printvar", 2)]
+        if holders:
+            choices.append(("holder", 4))
         if fns:
             choices += [("call", 8), ("isclosure", 1), ("mklist", 1), ("mapcall", 2), ("filtcall", 2), ("repeat", 1)]
         if ints:
@@ -871,6 +887,9 @@ def generate(rng, max_ops=12):
                 prog_needs_app = True
             else:
                 prog.append(["print", ["call", f, [["i", rng.range(0, 9)]]]])
+        elif k == "holder":
+            cur, setn, usen = rng.choice(holders)
+            prog.append(["print", ["call", rng.choice([setn, usen, usen, cur]), [["i", rng.range(0, 9)]]]])
         elif k == "printvar":
             cands = ints + g.of_type(top, "str") + g.of_type(top, "list")
             if cands:
